@@ -1,6 +1,8 @@
 (* C22 — Transfers reproduce the source data exactly.
    Statements only; proofs live in FsTree/Proofs.v and FsTree/Verbatim.v. *)
-From SF Require Import Base.Str FsTree.Model FsTree.Proofs FsTree.Cells FsTree.Verbatim Shell.Model.
+From SF Require Import Base.Str FsTree.Model FsTree.Proofs FsTree.Cells FsTree.Verbatim FsTree.Registry Shell.Model.
+From SF Require DataReg.Model Tags.Model Tags.Proofs.
+From SF Require Import FsTree.Paths.
 Import ListNotations.
 Local Open Scope string_scope. Local Open Scope list_scope.
 
@@ -116,6 +118,53 @@ Theorem C22_unquoted_root_refuted :
   sh_words (join " " (reader_cmd "/r" "a b")) = Some ["tar"; "chf"; "-"; "-C"; "/r"; "a"; "b"].
 Proof. exact blank_not_verbatim. Qed.
 
+(* The registry half, over C21's model of the data manager (DataReg): after the registry operations transfer_data performs
+   for a destination location that wraps no other one -- in ANY registry state, for any location table -- the destination path
+   and its parent directory are available on the destination location, the object created for the destination carries the
+   data type observed after the copy (PRIMARY for a writable transfer, else PRIMARY or SYMBOLIC_LINK as `test -L` says), the
+   source object is exactly what it was, and every copy that was valid before (the source's among them) is still available.
+   [place] is FsTree's registered path prefixed by the destination's parent path; wrapped destinations: correspondence only. *)
+Theorem C22_registered : forall tab s li place rsrc w ty dsrc,
+  ty <> DataReg.Model.INVALID -> DataReg.Model.hget s rsrc = Some dsrc ->
+  let s' := fst (reg_transfer tab s li place rsrc w ty) in
+  let r := snd (reg_transfer tab s li place rsrc w ty) in
+  DataReg.Model.available s' place (DataReg.Model.key_of tab li) = true /\
+  DataReg.Model.available s' (removelast place) (DataReg.Model.key_of tab li) = true /\
+  DataReg.Model.hget s' r
+    = Some (DataReg.Model.mkdloc (DataReg.Model.key_of tab li) place (if w then DataReg.Model.PRIMARY else ty)) /\
+  DataReg.Model.hget s' rsrc = Some dsrc /\
+  (forall np key, DataReg.Model.has_valid s np key np = true -> DataReg.Model.available s' np key = true).
+Proof. exact registered. Qed.
+
+Example C22_registered_ex :
+  let tab := [DataReg.Model.mkloc ("__LOCAL__", "__LOCAL__") true None []; DataReg.Model.mkloc ("r1", "a") false None []] in
+  let s := fst (DataReg.Model.register tab DataReg.Model.init 0 ["S"; "s"] DataReg.Model.PRIMARY) in
+  let s' := fst (reg_transfer tab s 1 ["D"; "d"; "s"] 0 false DataReg.Model.SYMBOLIC_LINK) in
+  DataReg.Model.hget s 0 = Some (DataReg.Model.mkdloc ("__LOCAL__", "__LOCAL__") ["S"; "s"] DataReg.Model.PRIMARY) /\
+  map (DataReg.Model.item_of s') (DataReg.Model.get_dl s' ["D"; "d"; "s"] (Some "r1") (Some "a") None)
+    = [Some (("r1", "a"), ["D"; "d"; "s"], DataReg.Model.SYMBOLIC_LINK)] /\
+  map (DataReg.Model.item_of s') (DataReg.Model.get_dl s' ["D"; "d"] (Some "r1") (Some "a") None)
+    = [Some (("r1", "a"), ["D"; "d"], DataReg.Model.PRIMARY)].
+Proof. vm_compute. repeat split. Qed.
+
+(* Path strings and component lists (over Tags' PurePosixPath/posixpath fragment): for components that are non-empty, not "."
+   and free of "/", the absolute path string determines the component list; posixpath.join(dst, name) is dst ++ [name] and
+   posixpath.split gives (dst, name) back; relpath(member, basename(src)) drops the first component (the [tl] of the loop
+   model).  _partial: normpath / ".." / trailing slashes are outside (transfer_data passes resolved paths). *)
+Theorem C22_path_strings_partial : forall dp n s rest,
+  (forall c, In c dp -> Tags.Proofs.good_comp c) -> Tags.Proofs.good_comp n ->
+  (forall c, In c (s :: rest) -> Tags.Proofs.good_comp c) ->
+  Tags.Model.pp_parts (Tags.Proofs.abs_path (dp ++ [n])) = dp ++ [n] /\
+  Tags.Model.posix_join (Tags.Proofs.abs_path dp) n = Tags.Proofs.abs_path (dp ++ [n]) /\
+  Tags.Model.pp_parent (Tags.Proofs.abs_path (dp ++ [n])) = Tags.Proofs.abs_path dp /\
+  Tags.Model.pp_name (Tags.Proofs.abs_path (dp ++ [n])) = n /\
+  relpath_parts (member_name (s :: rest)) s = rest.
+Proof. exact path_strings. Qed.
+
+Example C22_path_strings_ex :
+  Tags.Model.posix_join "/var/tmp/D" "a b" = "/var/tmp/D/a b" /\ relpath_parts "s/sub/k" "s" = ["sub"; "k"].
+Proof. vm_compute. split; reflexivity. Qed.
+
 Print Assumptions C22_extract_members.
 Print Assumptions C22_archive_roundtrip.
 Print Assumptions C22_strip_components.
@@ -128,3 +177,5 @@ Print Assumptions C22_exec_bit_refuted.
 Print Assumptions C22_local_merge_refuted.
 Print Assumptions C22_commands_verbatim_partial.
 Print Assumptions C22_unquoted_root_refuted.
+Print Assumptions C22_registered.
+Print Assumptions C22_path_strings_partial.
